@@ -9,7 +9,8 @@ declarations), positional (bool: positional port maps), concat (bool: always wri
 concatenations instead of identifiers / part-selects), escaped (bool: escaped identifiers for
 instance and wire names), comments (bool), celldefine (bool: wrap leaf modules in `celldefine), grouped (bool: header-only style with ONE
 declaration for consecutive ports of the same direction and range: "input [1:0] p, q;"), escmod (bool: module
-names written as escaped identifiers, in the declaration and in every instantiation).
+names written as escaped identifiers, in the declaration and in every instantiation), undeclared (bool: leaf
+modules are not declared at all - the reader has to infer black boxes from the named port maps of their instances).
 """
 
 
@@ -52,6 +53,8 @@ def render(st, n, opts=None):
         kids = st["defKids"][d - 1]
         port_names = [st["portData"][p - 1]["name"] for p in ports]
         is_leaf = not kids and all(st["cabData"][c - 1]["name"] in port_names for c in cables)
+        if is_leaf and opts.get("undeclared") and st["defRefs"][d - 1]:
+            continue          # never declared: an inferred black box
         if is_leaf and opts.get("celldefine"):
             w("`celldefine")
         decls = []
@@ -97,6 +100,33 @@ def render(st, n, opts=None):
 
         for i in kids:
             r = st["instRef"][i - 1]
+            if st["defData"][r - 1]["name"].startswith("SDN_VERILOG_ASSIGNMENT"):
+                # an assign statement: the wires on the pins of port o are assigned the wires on the pins of port i
+                sides = {}
+                for p in st["defPorts"][r - 1]:
+                    ws = []
+                    for q in st["portPins"][p - 1]:
+                        wq = None
+                        for e in st["instPins"][i - 1]:
+                            if e["ip"] == q:
+                                wq = e["wire"] or None
+                        if wq is None or wq not in cab_of_wire:
+                            raise Unrenderable("assign with an unconnected side")
+                        ws.append(cab_of_wire[wq])
+                    cname = ws[0][0]
+                    if any(x[0] != cname for x in ws) or any(ws[j][1] != ws[0][1] + j for j in range(len(ws))):
+                        raise Unrenderable("assign side is not one slice of a net")
+                    nm = ident(cname, cname not in port_names)
+                    lo = ws[0][3] + ws[0][1]
+                    if len(ws) == ws[0][2] and ws[0][1] == 0:
+                        expr = nm
+                    elif len(ws) == 1:
+                        expr = "%s[%d]" % (nm, lo)
+                    else:
+                        expr = "%s[%d:%d]" % (nm, lo + len(ws) - 1, lo)
+                    sides[st["portData"][p - 1]["name"]] = expr
+                w("  assign %s = %s;" % (sides["o"], sides["i"]))
+                continue
             conns = []
             for p in st["defPorts"][r - 1]:
                 pins = st["portPins"][p - 1]
@@ -135,7 +165,13 @@ def render(st, n, opts=None):
                         lo = refs[0][3] + refs[0][1]
                         expr = "%s[%d:%d]" % (nm, lo + len(bits) - 1, lo)
                 conns.append((st["portData"][p - 1]["name"], expr))
-            if opts.get("positional") and all(e for _, e in conns):     # positional maps with every port connected
+            ref_kids = st["defKids"][r - 1]
+            ref_ports = [st["portData"][p - 1]["name"] for p in st["defPorts"][r - 1]]
+            ref_leaf = not ref_kids and all(st["cabData"][c - 1]["name"] in ref_ports for c in st["defCables"][r - 1])
+            undeclared = bool(opts.get("undeclared")) and ref_leaf
+            if undeclared:
+                conns = [(pn, e) for pn, e in conns if e]      # an inferred black box has the ports that are used
+            if opts.get("positional") and all(e for _, e in conns) and not undeclared:     # positional maps with every port connected
                 args = ", ".join(e for _, e in conns)
             else:
                 args = ", ".join(".%s(%s)" % (ident(pn, False), e) for pn, e in conns)
